@@ -53,7 +53,7 @@ P0 == [keep |-> FALSE, pctx |-> 0,
        \* active then still has to deliver its result; once any further API call or released() follows
        \* (dirty) nothing can be said about liveness any more (later resolve goroutines see a cancelled
        \* context and may end without calling the resolver)
-       rootc |-> [dead |-> FALSE, dirty |-> FALSE],
+       rootc |-> [dead |-> FALSE, dirty |-> FALSE, n |-> 0],
        bad |-> {}]
 
 PInit == ps = P0
@@ -244,7 +244,11 @@ QuietBad(s, tgt, tgterr, act, blk, incb, cbdone, open) ==
     \cup If(\E c \in (incb \cap ConsOpen(s)) \ cbdone : s.cons[c].cbval \in s.inv \/ s.cons[c].canc, {"AccessNotCancelled"})
     \cup If(\E c \in DOMAIN s.cons : s.cons[c].must /\ s.cons[c].relcb = 0, {"RelCbMissing"})
 
-PRootCancel(s) == [s EXCEPT !.rootc = [dead |-> TRUE, dirty |-> FALSE]]
+\* n: the latest resolver call in flight when the root context was cancelled (0: none)
+PRootCancel(s) ==
+    LET A == Active(s) IN
+    [s EXCEPT !.rootc = [dead |-> TRUE, dirty |-> FALSE,
+                         n |-> IF A = {} THEN 0 ELSE CHOOSE n \in A : \A m \in A : m <= n]]
 Dirty(s) == IF s.rootc.dead THEN [s EXCEPT !.rootc.dirty = TRUE] ELSE s
 
 PQuiet(s, tgt, tgterr, act, blk, incb, cbdone, open) ==
@@ -252,7 +256,15 @@ PQuiet(s, tgt, tgterr, act, blk, incb, cbdone, open) ==
     LET s2 == Must([s EXCEPT !.invd = s.inv])
         qb == QuietBad(s2, tgt, tgterr, act, blk, incb, cbdone, open)
     IN
-    Bad(s2, IF s.rootc.dead /\ s.rootc.dirty THEN {n \in qb : Len(n) >= 8 /\ SubSeq(n, 1, 8) = "Harness:"} ELSE qb)
+    \* After a root-context cancellation later resolve goroutines see a cancelled context and may end
+    \* without calling the resolver, so liveness is no longer judged -- except for the call that was in
+    \* flight: unless it was invalidated (released()) or an API call followed, its result must have been
+    \* stored and delivered by now.
+    LET harnessOnly == {n \in qb : Len(n) >= 8 /\ SubSeq(n, 1, 8) = "Harness:"}
+        n == s.rootc.n
+        dropped == ~s.rootc.dirty /\ n # 0 /\ Returned(s2, n) /\ n \notin s2.inv /\ s2.pctx # 0
+                   /\ SureHeld(s2) # {} /\ Active(s2) = {} /\ ~Delivered(s2, tgt, tgterr)
+    IN Bad(s2, IF s.rootc.dead THEN harnessOnly \cup If(dropped, {"NotResolved"}) ELSE qb)
 
 -----------------------------------------------------------------------------
 (* The properties *)
